@@ -60,7 +60,9 @@ def run(repo='/repo', tier='quick'):
 
     # ---------------- C06.b / C06.c
     nb = 0
-    for d, side, proc, mlen in (('in', 'req', 'htp_tx_req_process_body_data_ex', 'request_message_len'), ('out', 'res', 'htp_tx_res_process_body_data_ex', None)):
+    for d, side, proc, mlen in (('in', 'req', 'htp_tx_req_process_body_data_ex', 'request_message_len'), ('out', 'res', 'htp_tx_res_process_body_data_ex', 'response_message_len')):
+        if central_accounting(db, proc, mlen):
+            mlen = None                                    # accounted inside the hand-over (C06.c central-accounting)
         cur = 'connp->%s_current_data' % d
         off = 'connp->%s_current_read_offset' % d
         ln = 'connp->%s_current_len' % d
@@ -150,9 +152,16 @@ def run(repo='/repo', tier='quick'):
             okk = False
     res.check(okk, 'C06.b', f.name + ':consume-all', 'all three offsets advance by the bytes left', 'the ignore-all state does not advance all three offsets by the same amount', f.loc)
 
-    # ---------------- C06.c wire accounting, request side (the response side accounts centrally)
+    # ---------------- C06.c wire accounting: centrally inside the hand-over function, or at every caller
     nsites = 0
-    for f, b, i, c in db.callers('htp_tx_req_process_body_data_ex'):
+    req_central = central_accounting(db, 'htp_tx_req_process_body_data_ex', 'request_message_len')
+    if req_central:
+        res.holds('C06.c', 'htp_tx_req_process_body_data_ex:central-accounting', 'request_message_len += len once, before the coding dispatch', db.get('htp_tx_req_process_body_data_ex').loc)
+        extra = [(n_, w_) for n_, f_ in sorted(db.fn.items()) if n_ != 'htp_tx_req_process_body_data_ex' for b_, i_, w_ in P.field_writes(f_, 'request_message_len')
+                 if w_.get('op') == '+=' and any(P.K(c_['args'][2]) == P.K(w_['r']) and not is_lit(c_['args'][1], 0) for b2_, i2_, c_ in f_.calls('htp_tx_req_process_body_data_ex'))]
+        res.check(not extra, 'C06.c', 'request:handed-over-bytes-counted-once', 'no caller adds the handed-over count a second time',
+                  '%s adds the handed-over byte count to request_message_len although the hand-over function does so itself: counted twice' % (extra[0][0] if extra else ''), extra[0][1]['loc'] if extra else '')
+    for f, b, i, c in ([] if req_central else db.callers('htp_tx_req_process_body_data_ex')):
         if is_lit(c['args'][1], 0) or f.name == 'htp_tx_req_process_body_data':
             continue                                       # end marker / public hybrid wrapper (no wire)
         nsites += 1
@@ -185,12 +194,10 @@ def run(repo='/repo', tier='quick'):
         key = '%s:wire-bytes(%s)' % (f.name, N)
         res.check(okall and npth > 0, 'C06.c', key, 'request_message_len += %s on all %d paths through the hand-over' % (N, npth),
                   '%s hands %s wire bytes to the request body path without adding them to request_message_len: entity length and message length disagree' % (f.name, N), c['loc'])
-    res.floor('C06.c', 'request-side wire hand-over sites', nsites, 2)
+    if not req_central:
+        res.floor('C06.c', 'request-side wire hand-over sites', nsites, 2)
     f = db.get('htp_tx_res_process_body_data_ex')
-    w = P.field_writes(f, 'response_message_len')
-    dom = C.dominators(f)
-    disp = [b for b in f.blocks if f.blocks[b].get('term', {}).get('kind') == 'SwitchStmt']
-    okc = len(w) == 1 and w[0][2].get('op') == '+=' and P.K(w[0][2]['r']) in ('d.len', 'len') and bool(disp) and all(w[0][0] in dom[b] for b in disp)
+    okc = central_accounting(db, 'htp_tx_res_process_body_data_ex', 'response_message_len')
     res.check(okc, 'C06.c', f.name + ':central-accounting', 'response_message_len += len once, before the coding dispatch', 'the response side no longer accounts every handed-over byte centrally before dispatch', f.loc)
 
     # ---------------- C06.e the other direction may not cut a body short
@@ -277,12 +284,23 @@ def run(repo='/repo', tier='quick'):
     return res
 
 
+
+def central_accounting(db, proc, fld):
+    """does the hand-over function itself add every handed-over byte to the message length, once, in front of the coding
+    dispatch?  (the response side always did; the request side does since the D39 repair)"""
+    f = db.get(proc)
+    w = P.field_writes(f, fld)
+    dom = C.dominators(f)
+    disp = [b for b in f.blocks if f.blocks[b].get('term', {}).get('kind') == 'SwitchStmt']
+    return len(w) == 1 and w[0][2].get('op') == '+=' and P.K(w[0][2]['r']) in ('d.len', 'len') and bool(disp) and all(w[0][0] in dom[b] for b in disp)
+
 def c06f(db, res):
     """message length = body bytes taken from the wire, framing included.  In the body states every direct advance of the
     consume cursor (bytes that will not be seen again) by A is paired, within the same loop iteration, with *_message_len
     advancing by A (or, response side, with the hand-over call that accounts centrally, C06.c)."""
     res.rule('C06.f', 'in every body state, each direct advance of the consume cursor by A is paired with *_message_len advancing by A before the function is left or the cursor advances again (per byte in the line-ending loops, per block in the bulk states)')
     nadv = 0
+    central = {'in': central_accounting(db, 'htp_tx_req_process_body_data_ex', 'request_message_len'), 'out': central_accounting(db, 'htp_tx_res_process_body_data_ex', 'response_message_len')}
     for d, side, proc in (('in', 'request', 'htp_tx_req_process_body_data_ex'), ('out', 'response', 'htp_tx_res_process_body_data_ex')):
         cur, acc = d + '_current_consume_offset', side + '_message_len'
         for name in sorted(P.state_functions(db, d)):
@@ -295,7 +313,7 @@ def c06f(db, res):
 
             def accounted(st):
                 out = [amount(w) for w in P.assigns_field(st, acc)]
-                if d == 'out':                              # the response side accounts inside the hand-over (C06.c central-accounting)
+                if central[d]:                              # this side accounts inside the hand-over (C06.c central-accounting)
                     out += [P.K(c['args'][2]) for c in nodes(st, lambda y: y.get('k') == 'call' and y.get('callee') == proc)]
                 return out
             dom = C.dominators(f)
